@@ -878,7 +878,7 @@ func runBurst(job *wk.Job, w *wk.Worker, p *Params) error {
 		w.Begin(idx, func() interface{} { return burstCase{Family: fam} })
 		w.Nontrivial()
 		for _, e := range byFam[fam] {
-			burst(w, p, e, 4+(i%3)*2)
+			burst(w, p, e, 3+(i%3)*2)
 		}
 	}
 	return nil
